@@ -3,13 +3,14 @@
      parse <dv> <hex>                     delay string codec (dv = two bits: dpv_wide dpv_init):
                                           impl=<ms>|ub|uninit spec=<ms>|none value=<hex> unit=<hex>
      sim <v> <prog> <sched>               run one schedule:    class=.. steps=.. trace=..
-     simc <v> <prog> <sched>              the same, then completed canonically to a terminal state
+     simc <v> <prog> <sched> [park]       the same, then completed canonically to a terminal state
      enum <v> <prog> <switches> <cap> [atomic]   (atomic: a <cancel> runs uninterrupted and only starts while no
                                           callback is in progress -- for programs with repeated sendids)
                                           all realisable complete schedules with at most <switches>
                                           context switches: <sched>|<class>|<steps>|<trace> joined by ';'
+     complete <prog> <trace>              complete_b: 1 iff every event whose sendid the program never cancels was delivered
      oracle <gran> <trace>                delay_admissibleb on an observed history (oldest first in the text)
-   <v>     three bits: dv_cb_takes_entry dv_ready_checks dv_cancel_noblock  (000 = the pinned code)
+   <v>     four bits: dv_cb_takes_entry dv_ready_checks dv_cancel_noblock dv_enqueue_arms_first (0000 = the pinned code)
    <prog>  comma separated: S:<uuid>:<sid>:<tgt>:<delay> | C:<sid> | A
    <sched> string over I (interpreter), T (timer), C (clock tick); '-' = empty
    trace   comma separated, oldest first: s:<u>:<sid>:<tgt>:<enq>:<delay> x:<u>:<due> d:<u>:<t>:<tgt>:<0|1> c:<sid>:<t> *)
@@ -18,7 +19,8 @@ open Vmodel
 (*COMMON*)
 
 let variant_of (s:string) : dvariant =
-  { dv_cb_takes_entry = (s.[0] = '1'); dv_ready_checks = (s.[1] = '1'); dv_cancel_noblock = (s.[2] = '1') }
+  { dv_cb_takes_entry = (s.[0] = '1'); dv_ready_checks = (s.[1] = '1'); dv_cancel_noblock = (s.[2] = '1');
+    dv_enqueue_arms_first = (String.length s > 3 && s.[3] = '1') }
 
 let ni s = n_of_int (int_of_string s)
 let si x = string_of_int (int_of_n x)
@@ -67,6 +69,9 @@ let skipped = ref 0
    (random) UUIDs, so a <cancel> is only enumerated as one uninterrupted run of the interpreter thread that
    starts while no timer callback is in progress *)
 let atomic_cancel = ref false
+(* the interpreter thread may be parked at interp.enqueue.armed (needs that hook in the tree); otherwise the two
+   halves of a delayed send follow each other at once *)
+let park_send = ref false
 let step_token v (s:dstate) (t:tid) : string =
   let res = dstep v pick_min s t in
   let opidx () = !nprog0 - List.length s.prog in
@@ -76,7 +81,8 @@ let step_token v (s:dstate) (t:tid) : string =
     let post = match res with
       | None -> "b"
       | Some s' -> (match s'.fault with Some _ -> "f" | None ->
-                     (match s'.ipc with IIdle -> "d" | IQBefore _ -> "q" | IQLocked _ -> "l" | IAllLocked -> "l")) in
+                     (match s'.ipc with IIdle -> "d" | IQBefore _ -> "q" | IQLocked _ -> "l" | IAllLocked -> "l"
+                                      | ISendArmed _ -> "a")) in
     (match s.ipc with
      | IIdle -> (match s.prog with
                  | OSend (u, _, _, _) :: _ -> Printf.sprintf "Is%d:%s" (opidx ()) post
@@ -84,6 +90,7 @@ let step_token v (s:dstate) (t:tid) : string =
                  | OCancelAll :: _ -> Printf.sprintf "Ia%d:%s" (opidx ()) post
                  | [] -> "I-")
      | IAllLocked -> "Ial:" ^ post
+     | ISendArmed _ -> "Isa:" ^ post
      | IQBefore _ -> "Iqb:" ^ post
      | IQLocked (_, u, _) -> Printf.sprintf "Iql%s:%s" (si u) post)
   | Timer ->
@@ -133,7 +140,8 @@ let enum_from v prog prefix maxsw cap =
       if deadlocked v pick_min s then
         finish s sched (step_token v s Timer :: step_token v s Interp :: toks)
       else finish s sched toks
-    end else if s.ipc = IAllLocked && enabled v s Interp then
+    end else if (s.ipc = IAllLocked || ((not !park_send) && (match s.ipc with ISendArmed _ -> true | _ -> false)))
+                && enabled v s Interp then
       step s Interp last sw sched toks depth
     else if !atomic_cancel && (match s.ipc with IQBefore _ | IQLocked _ -> true | _ -> false) && enabled v s Interp then
       step s Interp last sw sched toks depth
@@ -193,21 +201,29 @@ let handle (line:string) : string =
       let (s, toks) = sim v (prog_of p) (if sch = "-" then "" else sch) in
       Printf.sprintf "class=%s steps=%s trace=%s" (class_str v s)
         (if toks = [] then "-" else String.concat "," toks) (trace_str s.trace)
-  | ["simc"; v; p; sch] ->
+  | "simc" :: v :: p :: sch :: opt ->
       (* the schedule, then completed canonically to a terminal state *)
       let v = variant_of v in
-      (match enum_from v (prog_of p) (if sch = "-" then "" else sch) 0 1 with
+      park_send := List.mem "park" opt;
+      let r = enum_from v (prog_of p) (if sch = "-" then "" else sch) 0 1 in
+      park_send := false;
+      (match r with
        | (sch', c, toks, tr) :: _ ->
            Printf.sprintf "class=%s sched=%s steps=%s trace=%s" c (if sch' = "" then "-" else sch')
              (String.concat "," (String.split_on_char ' ' toks)) tr
        | [] -> "ERR no completion")
   | "enum" :: v :: p :: sw :: cap :: opt ->
-      atomic_cancel := (opt = ["atomic"]);
+      atomic_cancel := List.mem "atomic" opt;
+      park_send := List.mem "park" opt;
       let v = variant_of v in
       let l = enum v (prog_of p) (int_of_string sw) (int_of_string cap) in
-      atomic_cancel := false;
+      atomic_cancel := false; park_send := false;
       String.concat ";" (List.map (fun (sch, c, toks, tr) ->
         Printf.sprintf "%s|%s|%s|%s" (if sch = "" then "-" else sch) c (String.concat "," (String.split_on_char ' ' toks)) tr) l)
+  | ["complete"; p; tr] ->
+      (* a finished run has delivered every event whose sendid the program never cancels *)
+      let l = if tr = "-" then [] else List.rev_map obs_of (String.split_on_char ',' tr) in
+      b2s (complete_b (prog_of p) l)
   | ["oracle"; g; tr] ->
       let l = if tr = "-" then [] else List.rev_map obs_of (String.split_on_char ',' tr) in   (* newest first *)
       let g = ni g in
